@@ -124,7 +124,7 @@ func replayOnce(b builds, rec *proto.Record, tag string) (proto.ProcResult, erro
 func sameViolation(want, got *proto.Record) bool {
 	for _, g := range got.Violations {
 		for _, w := range want.Violations {
-			if g.Class != w.Class {
+			if classKey(g.Class) != classKey(w.Class) {
 				continue
 			}
 			if g.Class != "data_race" {
@@ -150,4 +150,12 @@ func framePair(f []string) string {
 		a, b = b, a
 	}
 	return a + " <-> " + b
+}
+
+// nondeterministic_result is result_mismatch whose replay is probabilistic
+func classKey(c string) string {
+	if c == "nondeterministic_result" {
+		return "result_mismatch"
+	}
+	return c
 }
